@@ -1,4 +1,5 @@
 import OrsoVerif.Generated.Profile
+import OrsoVerif.Generated.ProfileExpr
 /-!
 # C15 — column profiles (`orso/profiler/profiler.py`)
 
@@ -16,8 +17,13 @@ What enters as a parameter (never inspected by the model):
 * the hash function `h : α → Nat` of the k-minimum-values sketch (`xxh32(str(v).encode())`);
 * `numpy.histogram` (not modelled at all; only the mass of its result is checked, by the oracle).
 
-The sizes (`KVM_SIZE`, `MOST_FREQUENT_VALUE_SIZE`, batch size) come from `Gen.Profile`, regenerated
-from the source on every run.
+The sizes (`KVM_SIZE`, `MOST_FREQUENT_VALUE_SIZE`, batch size) come from `Gen.Profile`; the expressions
+the property depends on come from `Gen.ProfileExpr` (translated from the AST on every run by
+`harness/extractors/c15_expr.py`): the guard and formula of `estimate_cardinality`, the comparisons and
+the `ordered` update of `get_ordered_and_transitions`, `count +=` / `missing +=` / the extreme
+combinations of `__add__`, the clamp and byte window of `string_to_int64`, the order of hashing and
+cutting in `VarcharProfiler`, the source of the reported extremes.  Only the control-flow skeleton
+(loops, matches on `None`) is written by hand.
 -/
 namespace Profile
 
@@ -46,35 +52,53 @@ structure Core where
   maximum : Option Int
   deriving DecidableEq, Repr
 
-/-- `count = len(column_data)`; `missing = count - len(non-null)`; extremes of the non-null values,
-reported through `key`; `None` when every value is null (`if len(column_data) > 0`). -/
-def core (le : α → α → Bool) (key : α → Int) (xs : List (Option α)) : Core :=
+/-- The value a profiler reduces the non-null data to, by the *generated* source of the extreme. -/
+def pickExtreme (src : Source) (le : α → α → Bool) (vs : List α) : Option α :=
+  match src with
+  | .reduceMin => minBy le vs
+  | .reduceMax => maxBy le vs
+  | .unknown => none
+
+/-- `count = len(column_data)`; `missing = count - len(non-null)`; extremes of the non-null values taken
+from the given sources and reported through `key`; `None` when every value is null. -/
+def coreFrom (srcMin srcMax : Source) (le : α → α → Bool) (key : α → Int) (xs : List (Option α)) : Core :=
   { count := xs.length
     missing := xs.length - (present xs).length
-    minimum := (minBy le (present xs)).map key
-    maximum := (maxBy le (present xs)).map key }
+    minimum := (pickExtreme srcMin le (present xs)).map key
+    maximum := (pickExtreme srcMax le (present xs)).map key }
+
+/-- The specification the profilers are measured against: minimum from the minimum, maximum from the
+maximum. -/
+def core (le : α → α → Bool) (key : α → Int) (xs : List (Option α)) : Core :=
+  coreFrom .reduceMin .reduceMax le key xs
 
 /-- Profilers that report no extremes (BOOLEAN, ARRAY/STRUCT, untyped). -/
 def coreCounts (xs : List (Option α)) : Core :=
   { count := xs.length, missing := xs.length - (present xs).length, minimum := none, maximum := none }
 
-/-- `min([INFINITY if a is None else a, INFINITY if b is None else b])`, `INFINITY → None`. -/
-def optMin : Option Int → Option Int → Option Int
-  | none, b => b
-  | some a, none => some a
-  | some a, some b => some (if a ≤ b then a else b)
+/-- `new_profile.minimum = min([...])` followed by `if new_profile.minimum == INFINITY: ... = None`,
+both from the generated expressions (`profiler.py` `__add__`). -/
+def optMin (a b : Option Int) : Option Int :=
+  let m := Gen.ProfileExpr.addMinimum a b
+  if Gen.ProfileExpr.addMinimumAbsent m then none else m.toOption
 
-def optMax : Option Int → Option Int → Option Int
-  | none, b => b
-  | some a, none => some a
-  | some a, some b => some (if a ≤ b then b else a)
+def optMax (a b : Option Int) : Option Int :=
+  let m := Gen.ProfileExpr.addMaximum a b
+  if Gen.ProfileExpr.addMaximumAbsent m then none else m.toOption
 
-/-- `ColumnProfile.__add__`, the fields of the additivity clause (`profiler.py:171-190`). -/
+/-- `ColumnProfile.__add__`, the fields of the additivity clause: `new_profile` starts as a copy of
+`self` (`a`), then the generated updates are applied with `profile` = `b` — all four, one after the
+other, which is what the generated `addUpdatesStraightLine` says of the source. -/
 def addCore (a b : Core) : Core :=
-  { count := a.count + b.count
-    missing := a.missing + b.missing
-    minimum := optMin a.minimum b.minimum
-    maximum := optMax a.maximum b.maximum }
+  if Gen.ProfileExpr.addUpdatesStraightLine then
+    { count := Gen.ProfileExpr.addCount a.count b.count
+      missing := Gen.ProfileExpr.addMissing a.missing b.missing
+      minimum := optMin a.minimum b.minimum
+      maximum := optMax a.maximum b.maximum }
+  else
+    -- some update can be skipped (an early `return`): the skeleton no longer describes the code and
+    -- claims nothing — the copy of `self` is returned, and `add_expressions` stops checking
+    a
 
 /-- `DataFrame.to_batches(n)`: consecutive slices of `n` rows (`dataframe.py:333-334`); the fuel is
 the number of rows, which bounds the number of batches. -/
@@ -142,30 +166,42 @@ def kmv (h : α → Nat) (size : Nat) (vs : List α) : List Nat :=
 
 end mfv
 
-/-- `ColumnProfile.estimate_cardinality` (`profiler.py:139-152`); `none` is the `ZeroDivisionError`
-of a k-th hash of 0.  `int((K-1) / (kth / 2**32))` is the floor of the exact quotient. -/
+/-- `int(x)` of a number: truncation toward zero. -/
+def truncRat (q : Rat) : Int := Int.tdiv q.num q.den
+
+/-- `ColumnProfile.estimate_cardinality` (`profiler.py:139-152`): skeleton by hand (`if not
+self.kmv_hashes`, `kth_min_value = self.kmv_hashes[-1]`, `int(...)`), guard and formula generated.
+`none` is the `ZeroDivisionError` of a k-th hash of 0.  The formula is evaluated exactly; the float
+result has the same integer part (the quotient is never within 2⁻³⁷ of an integer from below). -/
 def estimateCardinality (size : Nat) (hs : List Nat) : Option Nat :=
   if hs.isEmpty then some 0
-  else if hs.length < size then some hs.length
+  else if Gen.ProfileExpr.estimateExactGuard hs.length size then some hs.length
   else match hs.getLast? with
     | some 0 => none
-    | some kth => some ((size - 1) * 2 ^ 32 / kth)
+    | some kth => some (truncRat (Gen.ProfileExpr.estimateFormula (size : Rat) (kth : Rat))).toNat
     | none => some 0
 
 /-! ## order and transitions (`get_ordered_and_transitions`) -/
 
-/-- The update of `ordered` on a transition (`profiler.py:111-114`). -/
+/-- The update of `ordered` on a transition (`profiler.py:111-114`): `if ordered is None` by hand, the
+first value, the flip test and the flip value generated. -/
 def otStep (lt : α → α → Bool) (o : Option Int) (v last : α) : Option Int :=
   match o with
-  | none => some (if lt v last then -1 else 1)
-  | some c => if (lt last v && c == -1) || (lt v last && c == 1) then some 0 else some c
+  | none => some (Gen.ProfileExpr.orderFirst lt v last)
+  | some c => if Gen.ProfileExpr.orderFlip lt v last c then some Gen.ProfileExpr.orderFlipValue else some c
 
-/-- The loop of `get_ordered_and_transitions` (`profiler.py:108-115`). -/
-def otLoop [DecidableEq α] (lt : α → α → Bool) : Option Int → Nat → α → List α → Option Int × Nat
+/-- The loop of `get_ordered_and_transitions` (`profiler.py:108-115`) over an arbitrary transition test,
+increment and update. -/
+def otLoopG (ne : α → α → Bool) (inc : Nat → Nat) (step : Option Int → α → α → Option Int) :
+    Option Int → Nat → α → List α → Option Int × Nat
   | o, t, _, [] => (o, t)
   | o, t, last, v :: vs =>
-    if v ≠ last then otLoop lt (otStep lt o v last) (t + 1) v vs
-    else otLoop lt o t v vs
+    if ne v last then otLoopG ne inc step (step o v last) (inc t) v vs
+    else otLoopG ne inc step o t v vs
+
+/-- …instantiated with the generated transition test and `transitions += 1`. -/
+def otLoop [DecidableEq α] (lt : α → α → Bool) : Option Int → Nat → α → List α → Option Int × Nat :=
+  otLoopG (fun v last => decide (Gen.ProfileExpr.orderNe lt v last)) Gen.ProfileExpr.transitionsNext (otStep lt)
 
 /-- `get_ordered_and_transitions(data)`; `none` is the `IndexError` of `data[0]` on empty data
 (the profilers only call it on non-empty data). -/
@@ -193,9 +229,11 @@ structure Ops (α : Type) where
 def profileNumeric [DecidableEq α] (p : Ops α) (xs : List (Option α)) : Prof α :=
   let vs := present xs
   match orderAndTransitions p.lt vs with
-  | none => { core := core p.le p.key xs, mfv := [], kmv := [], order := none, transitions := 0 }
+  | none =>
+    { core := coreFrom Gen.ProfileExpr.numericMinimumSource Gen.ProfileExpr.numericMaximumSource p.le p.key xs
+      mfv := [], kmv := [], order := none, transitions := 0 }
   | some (o, t) =>
-    { core := core p.le p.key xs
+    { core := coreFrom Gen.ProfileExpr.numericMinimumSource Gen.ProfileExpr.numericMaximumSource p.le p.key xs
       mfv := mfv Gen.Profile.mfvSize vs
       kmv := kmv p.hash Gen.Profile.kvmSize vs
       order := o
@@ -206,17 +244,19 @@ order and transition indicators (they are not copied). -/
 def profileTemporal [DecidableEq α] (p : Ops α) (xs : List (Option α)) : Prof α :=
   { profileNumeric p xs with order := none, transitions := 0 }
 
-/-- `VarcharProfiler` (`profiler.py:379-394`): the sketch sees whole values, everything else the
-first `SIXTY_FOUR_BYTES` characters (`cut`). -/
+/-- `VarcharProfiler` (`profiler.py:379-394`): everything but the sketch sees the first
+`SIXTY_FOUR_BYTES` characters (`cut`); whether the sketch sees whole values is the generated statement
+order (`textHashBeforeCut`). -/
 def profileText [DecidableEq α] (p : Ops α) (cut : α → α) (xs : List (Option α)) : Prof α :=
   let vs := present xs
   let ws := vs.map cut
   match orderAndTransitions p.lt ws with
   | none => { core := coreCounts xs, mfv := [], kmv := [], order := none, transitions := 0 }
   | some (o, t) =>
-    { core := core p.le p.key (xs.map (Option.map cut))
+    { core := coreFrom Gen.ProfileExpr.textMinimumSource Gen.ProfileExpr.textMaximumSource p.le p.key
+        (xs.map (Option.map cut))
       mfv := mfv Gen.Profile.mfvSize ws
-      kmv := kmv p.hash Gen.Profile.kvmSize vs
+      kmv := kmv p.hash Gen.Profile.kvmSize (if Gen.ProfileExpr.textHashBeforeCut then vs else ws)
       order := o
       transitions := t }
 
@@ -234,27 +274,55 @@ def profileCounts (xs : List (Option α)) : Prof α :=
 
 /-! ## concrete parameters used by the driver -/
 
-/-- Python's `<=` / `<` on numbers (exact rationals; floats without NaN), on epoch seconds, on text
-(code-point lexicographic = UTF-8 byte lexicographic). -/
+/-- Python's `<=` / `<` on numbers (exact rationals; floats without NaN) and on epoch seconds. -/
 def ratLe (a b : Rat) : Bool := decide (a ≤ b)
 def ratLt (a b : Rat) : Bool := decide (a < b)
 def intLe (a b : Int) : Bool := decide (a ≤ b)
 def intLt (a b : Int) : Bool := decide (a < b)
-def strLe (a b : String) : Bool := decide (a ≤ b)
-def strLt (a b : String) : Bool := decide (a < b)
 
-/-- `int(x)` of a number: truncation toward zero. -/
-def truncRat (q : Rat) : Int := Int.tdiv q.num q.den
+/-- The UTF-8 bytes of a text value. -/
+def utf8Bytes (s : String) : List Nat := s.toUTF8.data.toList.map UInt8.toNat
 
-/-- `col[:SIXTY_FOUR_BYTES]` (characters). -/
-def cutText (s : String) : String := String.ofList (s.toList.take Gen.Profile.textPrefix)
+/-- Lexicographic `<=` / `<` on byte strings. -/
+def bytesLe : List Nat → List Nat → Bool
+  | [], _ => true
+  | _ :: _, [] => false
+  | x :: xs, y :: ys => if x < y then true else if y < x then false else bytesLe xs ys
 
-/-- `string_to_int64` as repaired: the first `SIXTY_FOUR_BITS` UTF-8 bytes, NUL padded on the right,
-big endian, clipped at `MAX_INT64`. -/
+def bytesLt : List Nat → List Nat → Bool
+  | _, [] => false
+  | [], _ :: _ => true
+  | x :: xs, y :: ys => if x < y then true else if y < x then false else bytesLt xs ys
+
+/-- Python's `<=` / `<` on text: code-point lexicographic, which is the byte-lexicographic order of the
+UTF-8 encodings (the defining property of UTF-8; assumed, exercised by correspondence on non-ASCII and
+astral characters). -/
+def strLe (a b : String) : Bool := bytesLe (utf8Bytes a) (utf8Bytes b)
+def strLt (a b : String) : Bool := bytesLt (utf8Bytes a) (utf8Bytes b)
+
+/-- `col[:SIXTY_FOUR_BYTES]` (characters; generated width). -/
+def cutText (s : String) : String := String.ofList (s.toList.take Gen.ProfileExpr.textCutWidth)
+
+/-- `int.from_bytes(b, "big")`. -/
+def beVal : List Nat → Nat
+  | [] => 0
+  | x :: xs => x * 256 ^ xs.length + beVal xs
+
+/-- The bytes `string_to_int64` converts, by the generated shape: repaired — the first `keySliceWidth`
+UTF-8 bytes, `ljust` to `keyPadWidth` with `keyPadByte`; pinned — `keyPadWidth` NULs appended, the first
+`keySliceWidth` *characters* encoded. -/
+def keyWindow (s : String) : List Nat :=
+  if Gen.ProfileExpr.keySliceOnBytes then
+    let bs := (utf8Bytes s).take Gen.ProfileExpr.keySliceWidth
+    bs ++ List.replicate (Gen.ProfileExpr.keyPadWidth - bs.length) Gen.ProfileExpr.keyPadByte
+  else
+    utf8Bytes (String.ofList
+      ((s.toList ++ List.replicate Gen.ProfileExpr.keyPadWidth (Char.ofNat 0)).take Gen.ProfileExpr.keySliceWidth))
+
+/-- `string_to_int64`: the window as an integer in the generated byte order, through the generated clamp. -/
 def stringToInt64 (s : String) : Int :=
-  let bs := (s.toUTF8.toList.take Gen.Profile.keyBytes).map UInt8.toNat
-  let padded := bs ++ List.replicate (Gen.Profile.keyBytes - bs.length) 0
-  let n := padded.foldl (fun acc b => acc * 256 + b) 0
-  Int.ofNat (if n ≤ Gen.Profile.maxInt64 then n else Gen.Profile.maxInt64)
+  let w := keyWindow s
+  Gen.ProfileExpr.keyClamp (Int.ofNat (if Gen.ProfileExpr.keyBigEndian then beVal w else beVal w.reverse))
+    (Int.ofNat Gen.Profile.maxInt64)
 
 end Profile
